@@ -48,6 +48,17 @@ var corpus = []string{
 	"x: [\n  1\n\n  2; 3\n  [4; 5]\n  {a: b}\n]\n",
 	"\n\nlayers: {l: {a}}\n",
 	"layers\nscenarios: {s: {a}}\n",
+	"meow \\\r\n\tok: x\r\n",
+	"Text: |md\r\n\r\n\r\n|",
+	"x: [1;2] \ny\n",
+	"x: [1;2] # c\n",
+	"a: {b: [1;2]}\n",
+	"LAYERS: {l: {a}}\nb\n",
+	"x: {a; layers: {l: {b: {steps: {s: {c}}}}}}\n",
+	"x: lİnk\ny: \u212aeep\n",
+	"@Label\nx: @Shape\n",
+	"y: Style;steps: {b0: {c}}\n",
+	"x: { layers: {\n  a: {b}\n}\n}\n",
 }
 
 func emitCase(c *hl.Ctx, origin, src string, feat []string) {
@@ -119,7 +130,7 @@ func run(c *hl.Ctx) error {
 	}
 	// grammar stream; board-position and keyword-case features are forced in >= 30 % of the programs
 	g := &fmtlib.Gen{R: r}
-	n := c.Pick(5000, 400000)
+	n := c.Pick(5000, 300000)
 	forced := 0
 	for i := 0; i < n; i++ {
 		prof := fmtlib.Profiles[r.Intn(len(fmtlib.Profiles))]
